@@ -25,6 +25,9 @@ CLAIMED = {
     'C12': ('s5/C12', TECH + 'permuting and nesting executors; UF / node identity of cost, gradient and of every argument handed to the user functors against SerialExecutor with a fresh workspace',
             'SCHEDULE INDEPENDENCE ONLY: for all permutations of the per-segment tasks (N<=4; N=5,6 sampled), for OpenMPExecutor (serial fallback), for the first call on a freshly configured optimizer, and for an evaluation interrupted after 0..N segment tasks by a complete second evaluation on the same optimizer with a private workspace, cost, gradient and all functor arguments are node-identical (bit-identical) to undisturbed serial evaluation. Freedom from data races under real threads is NOT decided by this technique.',
             'half of the property: thread-level data races (e.g. the lazy layout cache written from const evaluate) are outside the claim - DESIGN s5/C12, s8'),
+    'C10': ('s5/C10', TECH + 'UF / node identity between a reused object (history of updates with fresh or partially shared symbolic inputs, interleaved queries; POISON for uninitialised dynamic buffers) and a freshly constructed one',
+            'After every history of up to 3 updates over sizes {1,2,3,4} (both overloads, with and without interleaved energy / gradient / propagation / evaluation queries), and after every re-update that keeps any subset of {durations, waypoints, start time, boundary state}, all observables (coefficients, bookkeeping, energy, energy gradients, partials, propagateGrad, evaluations) are node-identical to a fresh object and unchanged by repeating the queries; optimizer evaluations with an explicit or built-in workspace reused across problems, sizes, flag sets and optimizers are node-identical (cost, gradient, functor arguments, workspace spline) to evaluations with a fresh workspace.',
+            'histories <= 3, N <= 4, DIM <= 2 (quick)'),
     'C11': ('s5/C11', TECH + 'UF / node identity with fresh variables per update and POISON for uninitialised buffers; histories enumerated exhaustively to length 3',
             'After every operation sequence up to length 3 over {evaluate order 0/1/2, global evaluate, update same shape / other segment count / other coefficient count, rejected update, copy, assign over a warm object, derivative()} every evaluation and derivative trajectory of every live object is node-identical to a fresh object built from the data it must reflect; spline trajectories after update (both overloads) equal a fresh spline and earlier copies keep the old data.',
             'sequence length <= 3; shapes listed in evidence'),
